@@ -8,7 +8,7 @@ import numpy as np
 
 from .. import alph
 from .. import oracles as O
-from ..core import CaseResult, twice, variants
+from ..core import CaseResult, cross_dirty, twice, variants
 
 PROP = "C02"
 LEVEL = "exploration"
@@ -149,6 +149,24 @@ def check_case(case):
                     pair = lambda a, b: max(float(np.max(np.abs(np.asarray(a[0], float) - np.asarray(b[0], float)))), rel(a[1], b[1]))
                     variants(r, key + ":ubi_to_u_b", mod.ubi_to_u_b, [ubi_ref], 0, tol, ts, dev=pair)
                     variants(r, key + ":ub_to_u_b", mod.ub_to_u_b, [U @ B], 0, tol, ts, dev=pair)
+                    # interaction: one UBI buffer seen by one function with other contents, then by another function with these contents
+                    other = f * np.linalg.inv(alph.quat_to_mat((1, 2, -1, 3)) @ O.b_ref([4.4, 3.3, 6.1, 95.0, 80.0, 101.0], f))
+                    fam = [("ubi_to_cell", mod.ubi_to_cell), ("ubi_to_u", mod.ubi_to_u), ("ubi_to_u_b", mod.ubi_to_u_b), ("ubi_to_u_and_eps", lambda b_: mod.ubi_to_u_and_eps(b_, cell))]
+                    if abs(1 + np.trace(U)) > 1e-3:
+                        fam.append(("ubi_to_rod", mod.ubi_to_rod))
+                    cross_dirty(r, key + ":ubi-family", fam, other, ubi_ref)
+                    # overall scale of the UBI (the same grain described in nm, um, mm, m ... or in units of 1e-10 A): U does not change, B scales
+                    for sc_ in (1e-10, 1e-7, 1e-4, 1e-1, 1e4, 1e8):
+                        try:
+                            Us = np.asarray(mod.ubi_to_u(ubi_ref * sc_), float)
+                        except Exception as ex:
+                            r.evals += 1
+                            r.violation(key + ":ubi_to_u:scale=%g:exception" % sc_, "ubi_to_u raised for a valid right-handed UBI given in other length units", None, repr(ex))
+                            continue
+                        r.check("ubi_to_u scaled", float(np.max(np.abs(Us - U))), tol, key + ":ubi_to_u:scale=%g" % sc_, "ubi_to_u of the UBI in other length units returns the same U", U, Us)
+                        U6, B6 = mod.ubi_to_u_b(ubi_ref * sc_)
+                        r.check("ubi_to_u_b scaled", max(float(np.max(np.abs(np.asarray(U6) - U))), float(np.max(np.abs(np.asarray(B6) * sc_ - B))) / float(np.max(np.abs(B)))), tol,
+                                key + ":ubi_to_u_b:scale=%g" % sc_, "ubi_to_u_b of the UBI in other length units: same U, B scaled inversely")
                 if not np.allclose(U, np.eye(3)):
                     r.nontrivial.add("%s:%s:%s" % (mname, tag, cell))
     else:
@@ -178,6 +196,14 @@ def check_case(case):
                 r.check("qr.product", float(np.max(np.abs(U @ B - M))) / float(np.max(np.abs(M))), 1e-12 * max(1.0, cond), key + ":product", "U.B = UB")
                 r.check("qr.U", float(np.max(np.abs(U - Ur))), tol, key + ":U", "U equals the unique reference rotation", Ur, U)
                 r.check("qr.B", float(np.max(np.abs(B - Br))) / bn, tol, key + ":B", "B equals the unique reference", Br, B)
+                # the same split asked through the UBI: ubi_to_u_b(f inv(M)) must be as accurate as the QR of M itself (a route through the
+                # metric tensor and cell angles loses cond^2 .. cond^3 x eps)
+                try:
+                    U7, B7 = mod.ubi_to_u_b(f * np.linalg.inv(M))
+                    d7 = max(float(np.max(np.abs(np.asarray(U7, float) - Ur))), float(np.max(np.abs(np.asarray(B7, float) - Br))) / bn)
+                except Exception as ex:
+                    d7 = float("inf")
+                r.check("qr.via-ubi", d7, 1e-11 * max(1.0, cond), key + ":via-ubi", "ubi_to_u_b(f inv(UB)) equals the unique split of UB", None, d7)
                 r.nontrivial.add(key)
                 r.states += 1
                 # argument kinds: the same (exactly representable) matrix as nested list, int array, float32 array, Fortran-ordered array
